@@ -636,7 +636,9 @@ func check(prop, tier string) int {
 			}
 			out, _ := c.CombinedOutput()
 			lastOut = string(out)
-			if strings.Contains(lastOut, "REPRODUCED "+r.sig) || (seqCase != "" && strings.Contains(lastOut, "REPRODUCED")) {
+			if strings.Contains(lastOut, "REPRODUCED "+r.sig) || (seqCase != "" && strings.Contains(lastOut, "REPRODUCED")) ||
+				(race && strings.Contains(lastOut, " C19|C19.race|")) { // which of several races of one schedule the detector reports first varies
+
 				okc++
 			}
 		}
